@@ -259,6 +259,8 @@ package kubeeventsmanager
 //@ ghost ctxLog map[int]context.Context
 //@ ghost ctxParent map[int]context.Context
 //@ ghost ctxCancel map[int]context.CancelFunc
+// the context a derived context was created from (uninterpreted; defined by WithCancel's contract)
+//@ specfn ctxParentOf(c context.Context) context.Context
 //@ ghost lastStoredNs string
 //@ ghost lastStoredCancel context.CancelFunc
 //@ package context
@@ -268,6 +270,7 @@ package kubeeventsmanager
 //@   ghostset kubeeventsmanager.ctxLog[kubeeventsmanager.nCtx] := result0
 //@   ghostset kubeeventsmanager.ctxParent[kubeeventsmanager.nCtx] := parent
 //@   ghostset kubeeventsmanager.ctxCancel[kubeeventsmanager.nCtx] := result1
+//@   ensures kubeeventsmanager.ctxParentOf(result0) == parent
 //@ package github.com/flant/shell-operator/pkg/kube_events_manager
 //@ trusted func (*cancelForNs).Store
 //@   modifies lastStoredNs, lastStoredCancel
